@@ -679,7 +679,7 @@ class C06(PropCheck):
             'buffer (C- or Fortran-ordered) / negative strides on all axes, the first, the last / a window at an offset of a larger buffer / one '
             'row broadcast (stride 0) / overlapping sliding windows (all strides one element), 20% read-only; per history one layout for all '
             'batches (22%), all C (8%) or one per batch; an overwrite may come in the opposite byte order (same values; good=false: an append of '
-            'it is rejected, an overwrite converts); a layout stream (8 quick / 60 thorough): 2-d and 3-d batches with bs>=2, only non-C layouts, '
+            'it is rejected, an overwrite converts); a layout stream (8 quick / 40 thorough): 2-d and 3-d batches with bs>=2, only non-C layouts, '
             'appends, overwrites before and after a read created the memmap, flush/reopen/pickle.  The Coq case carries each array as shape + '
             'strides + offset + buffer of element codes read off the numpy array actually passed; Npy.lower computes its logical content '
             '(element (r, idx) -> row r, row-major position of idx), which the model writes and the specification holds.  Histogram keys layout=*, '
@@ -1047,7 +1047,7 @@ class C06(PropCheck):
         # a layout stream of its own: short histories over 2-d and 3-d batches with at least two axes
         # longer than 1, every batch in a different non-C layout, appended, overwritten (before and after
         # a read created the memmap), flushed, reopened and unpickled
-        for i in range(8 if self.tier == 'quick' else 60):
+        for i in range(8 if self.tier == 'quick' else 40):
             self.bump('stream=layout')
             yield self.gen_layout()
 
